@@ -13,3 +13,4 @@ git add -A $(git diff --name-only)
 if [ -n "$body" ]; then git commit -q -m "fix: $subj" -m "$body"; else git commit -q -m "fix: $subj"; fi
 git log --oneline | head -1
 echo "$(basename "$d") $(git log --format=%h -1)" >> /verif/proposed_fixes/APPLIED.txt
+/verif/auditfixes.sh 30 | sed "s/^/AUDIT: /"
